@@ -3,7 +3,7 @@ K = 'github.com/ProjectSerenity/firefly/kernel'
 B = 'github.com/ProjectSerenity/firefly/kbuild'
 
 PROP = {'pkg': B,
- 'tests': [{'name': 'TestVerifC20', 'checks_quick': 8000, 'checks_thorough': 400000}],
+ 'tests': [{'name': 'TestVerifC20', 'checks_quick': 8000, 'checks_thorough': 320000}],
  'rule': 'rapid generates the description of a Go source tree: 1-6 directories (root included) up to depth 5, 0-4 files '
          'each (non-test .go files, _test.go files, non-Go files such as .go.bak/.gox/.s, some of them not Go at all), '
          '0-7 top-level elements per file: plain functions (with/without body) whose doc comment mixes 0-6 lines of '
